@@ -17,6 +17,25 @@ EXTRA = {
 }
 
 
+def _reversed_n2d():
+    """nfa_to_dfa with every state's transition list reversed (a Python set's iteration order is arbitrary)"""
+    from codelimit.common.gsm import matcher as _m
+    orig = _m.nfa_to_dfa
+
+    def rev(nfa):
+        dfa = orig(nfa)
+        seen, stack = set(), [dfa.start]
+        while stack:
+            st = stack.pop()
+            if id(st) in seen:
+                continue
+            seen.add(id(st))
+            st.transition.reverse()
+            stack.extend(t[1] for t in st.transition)
+        return dfa
+    return _m, orig, rev
+
+
 def _work(args):
     lang, words = args
     from codelimit.common.Location import Location
@@ -33,7 +52,18 @@ def _work(args):
             ids = {id(t): i for i, t in enumerate(toks)}
             return [[ids[id(h.name_token)], h.token_range.start, h.token_range.end]
                     for h in language.extract_headers(toks)]
-        out.append((w, G.guarded(hs)))
+        r = G.guarded(hs)
+        if r[0] == 0:
+            # the same sequence with the transitions of every matcher state tried in the opposite order
+            _m, orig, rev = _reversed_n2d()
+            _m.nfa_to_dfa = rev
+            try:
+                r2 = G.guarded(hs)
+            finally:
+                _m.nfa_to_dfa = orig
+            if r2 != r:
+                r = r2 if r2[0] != 0 else [1, 99]
+        out.append((w, r))
     return lang, out
 
 
@@ -66,6 +96,7 @@ def run(tier, seed, replay=None):
                     chk.nontrivial.add((lang, w))
                 if r[0] != 0:
                     what = "the matcher's ambiguity error (ValueError: Multiple transitions found!)" if r[1] == 3 \
+                        else "a different result when the transitions of a matcher state are tried in another order" if r[1] == 99 \
                         else f"an internal error (kind {r[1]})"
                     chk.violation({"language": lang, "tokens": list(w)},
                                   f"{lang}: extract_headers on `{' '.join(v for _, v in w)}` raised {what}")
